@@ -30,17 +30,17 @@ type Op struct {
 }
 
 type Failure struct {
-	Property string `json:"property"`
-	Family   string `json:"family"`
-	Seed     int64  `json:"seed"`
-	Seq      int    `json:"sequence"`
-	Quirks   string `json:"quirks"`
-	Kind     string `json:"kind"` // reply | state | hang | harness
-	Detail   string `json:"detail"`
-	Step     int    `json:"step"`
-	Ops      []Op   `json:"ops"`
+	Property string   `json:"property"`
+	Family   string   `json:"family"`
+	Seed     int64    `json:"seed"`
+	Seq      int      `json:"sequence"`
+	Quirks   string   `json:"quirks"`
+	Kind     string   `json:"kind"` // reply | state | hang | harness
+	Detail   string   `json:"detail"`
+	Step     int      `json:"step"`
+	Ops      []Op     `json:"ops"`
 	Readable []string `json:"readable"`
-	Shrunk   bool   `json:"shrunk"`
+	Shrunk   bool     `json:"shrunk"`
 }
 
 type Stats struct {
@@ -120,6 +120,8 @@ type runner struct {
 	d       *drv.Driver
 	quirks  string
 	dumpGap int
+	// while a failing sequence is being reduced a command that hangs is given up sooner
+	shrinking bool
 }
 
 type dispatchResult struct {
@@ -145,8 +147,23 @@ func (r *runner) run(ops []Op, conns int, st *Stats, live *gen.G, gen1 func() (O
 		clients[c] = vs.NewClient()
 		r.d.MustAsk(fmt.Sprintf("N %d %d", c, clients[c].ID()))
 	}
+	// the emulator's locks may be held by a command that went wrong: nothing is called without a watchdog
+	guarded := func(what string, step int, f func()) *Failure {
+		fin := make(chan struct{})
+		go func() { f(); close(fin) }()
+		select {
+		case <-fin:
+			return nil
+		case <-time.After(r.hangAfter()):
+			return &Failure{Kind: "hang", Detail: fmt.Sprintf("%s did not return within %v: a data store lock is still held after the commands so far", what, r.hangAfter()), Step: step}
+		}
+	}
 	check := func(step int) *Failure {
-		ans := r.d.MustAsk("C " + drv.Hex([]byte(vs.Dump())))
+		var dump string
+		if f := guarded("reading the state of the store", step, func() { dump = vs.Dump() }); f != nil {
+			return f
+		}
+		ans := r.d.MustAsk("C " + drv.Hex([]byte(dump)))
 		if st != nil {
 			st.StateChecks++
 		}
@@ -179,7 +196,11 @@ func (r *runner) run(ops []Op, conns int, st *Stats, live *gen.G, gen1 func() (O
 		done = append(done, op)
 		argv := op.bytes()
 		if len(argv) == 1 && string(argv[0]) == "VERIF-SAVE" {
-			if err := vs.Save(); err != nil {
+			var err error
+			if f := guarded("saving the store", i, func() { err = vs.Save() }); f != nil {
+				return f, done
+			}
+			if err != nil {
 				return &Failure{Kind: "harness", Detail: "save failed: " + err.Error(), Step: i}, done
 			}
 			r.d.MustAsk("V")
@@ -204,8 +225,8 @@ func (r *runner) run(ops []Op, conns int, st *Stats, live *gen.G, gen1 func() (O
 		var res dispatchResult
 		select {
 		case res = <-ch:
-		case <-time.After(10 * time.Second):
-			return &Failure{Kind: "hang", Detail: "command did not return within 10 s: " + readable(op), Step: i}, done
+		case <-time.After(r.hangAfter()):
+			return &Failure{Kind: "hang", Detail: fmt.Sprintf("command did not return within %v: %s", r.hangAfter(), readable(op)), Step: i}, done
 		}
 		t1 := time.Now().UnixNano()
 		ans := r.d.MustAsk(drv.X(op.Conn, t0, t1, res.reply, res.p != "", argv))
@@ -255,10 +276,20 @@ func (r *runner) run(ops []Op, conns int, st *Stats, live *gen.G, gen1 func() (O
 }
 
 // shrink: delta debugging on the op list (bounded number of re-runs)
+func (r *runner) hangAfter() time.Duration {
+	if r.shrinking {
+		return 2 * time.Second
+	}
+	return 10 * time.Second
+}
+
 func (r *runner) shrink(ops []Op, conns int) ([]Op, *Failure, bool) {
 	budget := 250
+	r.shrinking = true
+	defer func() { r.shrinking = false }()
+	deadline := time.Now().Add(90 * time.Second)
 	test := func(cand []Op) *Failure {
-		if budget <= 0 {
+		if budget <= 0 || time.Now().After(deadline) {
 			return nil
 		}
 		budget--
